@@ -11,6 +11,7 @@
 //!   describe <check>        static description + run counts
 
 mod checks;
+mod detsched;
 mod forkutil;
 mod mach;
 mod prng;
